@@ -210,7 +210,11 @@ func TestVerifBounded_C06_Gossip(t *testing.T) {
 		}
 		// updates handed to NotifyMsg are merged by worker goroutines: give them time to finish (they cannot add anything
 		// the full-state exchanges have not delivered already, so the comparison below is stable once they are done)
-		for w := 0; w < 100; w++ {
+		patience := 2000 // x 5 ms: generous on a loaded machine; once violations are being reported do not wait minutes for more
+		if fails > 2 {
+			patience = 40
+		}
+		for w := 0; w < patience; w++ {
 			agree := true
 			for _, k := range keys {
 				v0, _ := cls[0].Get(ctx, k)
@@ -239,7 +243,7 @@ func TestVerifBounded_C06_Gossip(t *testing.T) {
 			}
 			for i := 0; i < n; i++ {
 				ok := false
-				for w := 0; w < 100 && !ok; w++ {
+				for w := 0; w < patience && !ok; w++ {
 					seen[i].mu.Lock()
 					ok = seen[i].v[k] == verifC06View(v0)
 					seen[i].mu.Unlock()
